@@ -37,10 +37,37 @@ pub trait BackOps: MemBuilder + Default + 'static {
     fn with_capacity<Tr: ?Sized + Trait, T: Elem + SatisfyTraits<Tr>>(_n: usize) -> AnyVec<Tr, Self> {
         unreachable!()
     }
+    /// into_raw_parts / (clone) / from_raw_parts; returns the rebuilt vector and the reported fields
+    fn parts<Tr: ?Sized + Trait, T: Elem>(_v: AnyVec<Tr, Self>, _mode: usize) -> (AnyVec<Tr, Self>, Vec<u64>) {
+        panic!("raw parts are not available on this backend")
+    }
+}
+fn parts_impl<Tr: ?Sized + Trait, M: MemBuilder, T: Elem>(v: AnyVec<Tr, M>, mode: usize) -> (AnyVec<Tr, M>, Vec<u64>)
+where
+    M::Mem: any_vec::mem::MemRawParts,
+    <M::Mem as any_vec::mem::MemRawParts>::Handle: Clone,
+{
+    let fields = |p: &any_vec::RawParts<M>| -> Vec<u64> {
+        vec![p.len as u64, p.capacity as u64, p.element_layout.size() as u64, p.element_layout.align() as u64,
+             (p.element_typeid == TypeId::of::<T>()) as u64, p.element_drop.is_some() as u64]
+    };
+    let p = lib!(v.into_raw_parts());
+    let ret = if mode == 1 {
+        let q = lib!(p.clone());
+        fields(&q)
+    } else {
+        fields(&p)
+    };
+    let mut v2 = unsafe { lib!(AnyVec::<Tr, M>::from_raw_parts(p)) };
+    if mode == 2 {
+        let p2 = lib!(v2.into_raw_parts());
+        v2 = unsafe { lib!(AnyVec::<Tr, M>::from_raw_parts(p2)) };
+    }
+    (v2, ret)
 }
 
 macro_rules! resizable_backops {
-    ($t:ty, $pat:pat) => {
+    ($t:ty, $pat:pat, $($extra:tt)*) => {
         impl BackOps for $t {
             const RESIZABLE: bool = true;
             const RAW: bool = true;
@@ -53,11 +80,13 @@ macro_rules! resizable_backops {
             fn with_capacity<Tr: ?Sized + Trait, T: Elem + SatisfyTraits<Tr>>(n: usize) -> AnyVec<Tr, Self> {
                 AnyVec::<Tr, Self>::with_capacity::<T>(n)
             }
+            $($extra)*
         }
     };
 }
-resizable_backops!(any_vec::mem::Heap, Bk::Heap);
-resizable_backops!(crate::reloc::Reloc, Bk::Reloc);
+resizable_backops!(any_vec::mem::Heap, Bk::Heap,
+    fn parts<Tr: ?Sized + Trait, T: Elem>(v: AnyVec<Tr, Self>, mode: usize) -> (AnyVec<Tr, Self>, Vec<u64>) { parts_impl::<Tr, Self, T>(v, mode) });
+resizable_backops!(crate::reloc::Reloc, Bk::Reloc,);
 
 impl<const SIZE: usize> BackOps for any_vec::mem::Stack<SIZE> {
     const RESIZABLE: bool = false;
@@ -75,6 +104,7 @@ impl BackOps for any_vec::mem::Empty {
     const RESIZABLE: bool = false;
     fn matches(bk: &Bk) -> bool { *bk == Bk::Empty }
     fn fixed_cap(_sz: usize) -> Option<usize> { Some(0) }
+    fn parts<Tr: ?Sized + Trait, T: Elem>(v: AnyVec<Tr, Self>, mode: usize) -> (AnyVec<Tr, Self>, Vec<u64>) { parts_impl::<Tr, Self, T>(v, mode) }
 }
 
 // ---------------------------------------------------------------------------------
@@ -750,6 +780,180 @@ impl<Tr: ?Sized + TrOps, M: BackOps> World<Tr, M> {
                 let vv = self.v(*v);
                 unsafe { lib!(vv.set_len(*n)) };
             }
+            Op::IterClone(kind, v, pat1, pat2) => {
+                let vv = self.v(*v);
+                fn hint<I: ExactSizeIterator>(it: &I) -> u64 {
+                    let (lo, hi) = it.size_hint();
+                    if hi != Some(lo) || it.len() != lo { u64::MAX - 7 } else { lo as u64 }
+                }
+                macro_rules! run_clone {
+                    ($it:expr, $tok:expr) => {{
+                        let mut it = $it;
+                        ret.push(hint(&it));
+                        let mut adv = |it: &mut _, pat: &Vec<bool>, ret: &mut Vec<u64>| {
+                            for front in pat {
+                                let x = if *front { lib!(Iterator::next(it)) } else { lib!(DoubleEndedIterator::next_back(it)) };
+                                match x {
+                                    None => { ret.push(0); ret.push(0); }
+                                    Some(e) => { ret.push(1); ret.push($tok(e)); }
+                                }
+                                ret.push(hint(it));
+                            }
+                        };
+                        adv(&mut it, pat1, &mut ret);
+                        let mut cl = lib!(it.clone());
+                        ret.push(hint(&cl));
+                        adv(&mut cl, pat2, &mut ret);
+                        ret.push(hint(&it));
+                        adv(&mut it, pat2, &mut ret);
+                    }};
+                }
+                match kind {
+                    IterKind::Ref => run_clone!(lib!(vv.iter()), |e: any_vec::element::ElementRef<'_, Tr, M>| e.downcast_ref::<T>().unwrap().token()),
+                    IterKind::Mut => run_clone!(lib!(vv.iter_mut()), |e: any_vec::element::ElementMut<'_, Tr, M>| e.downcast_ref::<T>().unwrap().token()),
+                    IterKind::TRef => run_clone!(lib!(vv.downcast_ref::<T>().unwrap().iter()), |e: &T| e.token()),
+                    IterKind::TMut => panic!("slice::IterMut is not Clone"),
+                }
+            }
+            Op::ProbeTypes(v, idx) => {
+                let vv = self.v(*v);
+                type W<T> = <T as Elem>::Wrong;
+                ret.push(lib!(vv.downcast_ref::<T>()).is_some() as u64);
+                ret.push(lib!(vv.downcast_ref::<W<T>>()).is_some() as u64);
+                ret.push(lib!(vv.downcast_mut::<T>()).is_some() as u64);
+                ret.push(lib!(vv.downcast_mut::<W<T>>()).is_some() as u64);
+                ret.push((lib!(vv.element_typeid()) == TypeId::of::<T>()) as u64);
+                let lay = lib!(vv.element_layout());
+                ret.push(lay.size() as u64);
+                ret.push(lay.align() as u64);
+                if *idx < vv.len() {
+                    {
+                        let e = lib!(vv.get(*idx)).unwrap();
+                        ret.push((lib!(e.value_typeid()) == TypeId::of::<T>()) as u64);
+                        ret.push(lib!(e.size()) as u64);
+                        ret.push(lib!(e.downcast_ref::<T>()).is_some() as u64);
+                        ret.push(lib!(e.downcast_ref::<W<T>>()).is_some() as u64);
+                    }
+                    let mut em = lib!(vv.get_mut(*idx)).unwrap();
+                    ret.push(lib!(em.downcast_mut::<T>()).is_some() as u64);
+                    ret.push(lib!(em.downcast_mut::<W<T>>()).is_some() as u64);
+                    ret.push(lib!(AnyValueMut::downcast_mut::<T>(&mut *em)).is_some() as u64);
+                    ret.push(lib!(AnyValueMut::downcast_mut::<W<T>>(&mut *em)).is_some() as u64);
+                }
+            }
+            Op::DownWrong(v, k, idx) => {
+                let vv = self.v(*v);
+                type W<T> = <T as Elem>::Wrong;
+                macro_rules! probe_handle {
+                    ($h:expr) => {{
+                        let mut h = $h;
+                        ret.push((lib!(h.value_typeid()) == TypeId::of::<T>()) as u64);
+                        ret.push(lib!(h.size()) as u64);
+                        ret.push(lib!(h.downcast_ref::<W<T>>()).is_some() as u64);
+                        ret.push(lib!(h.downcast_mut::<W<T>>()).is_some() as u64);
+                        let r = lib!(h.downcast::<W<T>>());
+                        ret.push(r.is_some() as u64);
+                        if let Some(x) = r { std::mem::forget(x); }
+                    }};
+                }
+                match k {
+                    TKind::Pop => match lib!(vv.pop()) { None => out = 1, Some(h) => probe_handle!(h) },
+                    TKind::Rm => probe_handle!(lib!(vv.remove(*idx))),
+                    TKind::Srm => probe_handle!(lib!(vv.swap_remove(*idx))),
+                }
+            }
+            Op::SwapWrong(v, idx) => {
+                let vv = self.v(*v);
+                let mut e = lib!(vv.at_mut(*idx));
+                let mut w = AnyValueWrapper::new(<T::Wrong as Elem>::new());
+                lib!(e.swap(&mut w));
+            }
+            Op::Write(hk, v, idx) => {
+                let vv = self.v(*v);
+                let i = *idx;
+                let old: T = match hk {
+                    0 => { let mut e = lib!(vv.at_mut(i)); let r = lib!(e.downcast_mut::<T>()).unwrap(); std::mem::replace(r, T::new()) }
+                    1 => { let mut e = lib!(vv.at_mut(i)); let r = lib!(AnyValueMut::downcast_mut::<T>(&mut *e)).unwrap(); std::mem::replace(r, T::new()) }
+                    2 => { let mut tv = vv.downcast_mut::<T>().unwrap(); let r = lib!(tv.at_mut(i)); std::mem::replace(r, T::new()) }
+                    3 => { let mut tv = vv.downcast_mut::<T>().unwrap(); let s = lib!(tv.as_mut_slice()); std::mem::replace(&mut s[i], T::new()) }
+                    4 => { let mut tv = vv.downcast_mut::<T>().unwrap(); let r = lib!(tv.iter_mut()).nth(i).unwrap(); std::mem::replace(r, T::new()) }
+                    5 => {
+                        assert!(i < vv.len(), "index out of range");
+                        let mut x = ManuallyDrop::new(T::new());
+                        let sz = std::mem::size_of::<T>();
+                        let b = lib!(vv.as_bytes_mut());
+                        let xb = unsafe { std::slice::from_raw_parts_mut(&mut *x as *mut T as *mut u8, sz) };
+                        b[i * sz..(i + 1) * sz].swap_with_slice(xb);
+                        ManuallyDrop::into_inner(x)
+                    }
+                    6 => { let mut e = lib!(vv.iter_mut()).nth(i).unwrap(); let r = lib!(e.downcast_mut::<T>()).unwrap(); std::mem::replace(r, T::new()) }
+                    7 => { let mut e = lib!(vv.at_mut(i)); let mut wr = AnyValueWrapper::new(T::new()); lib!(e.swap(&mut wr)); wr.downcast::<T>().unwrap() }
+                    8 => { let mut e = lib!(vv.at_mut(i)); let mut x = ManuallyDrop::new(T::new());
+                           let mut raw = unsafe { AnyValueRaw::new(NonNull::from(&mut *x).cast::<u8>(), std::mem::size_of::<T>(), TypeId::of::<T>()) };
+                           lib!(e.swap(&mut raw)); ManuallyDrop::into_inner(x) }
+                    9 => { let mut e = lib!(vv.at_mut(i)); let mut wr = AnyValueWrapper::new(T::new()); lib!(wr.swap(&mut *e)); wr.downcast::<T>().unwrap() }
+                    _ => { let mut e = lib!(vv.at_mut(i)); let mut x = ManuallyDrop::new(T::new());
+                           let mut raw = unsafe { AnyValueRaw::new(NonNull::from(&mut *x).cast::<u8>(), std::mem::size_of::<T>(), TypeId::of::<T>()) };
+                           lib!(raw.swap(&mut *e)); ManuallyDrop::into_inner(x) }
+                };
+                ret.push(old.token());
+                drop(old);
+            }
+            Op::Read(hk, v, idx) => {
+                let vv = self.v(*v);
+                let i = *idx;
+                let sz = std::mem::size_of::<T>();
+                let r: Option<(u64, u64, u64)> = match hk {
+                    0 => lib!(vv.get(i)).map(|e| (lib!(e.downcast_ref::<T>()).unwrap().token(), (lib!(e.value_typeid()) == TypeId::of::<T>()) as u64, lib!(e.size()) as u64)),
+                    1 => lib!(vv.get(i)).map(|e| { let b = lib!(e.as_bytes()); (tok_of_bytes::<T>(b.as_ptr()), 1, b.len() as u64) }),
+                    2 => lib!(vv.downcast_ref::<T>().unwrap().get(i)).map(|x| (x.token(), 1, sz as u64)),
+                    3 => lib!(vv.downcast_ref::<T>().unwrap().as_slice()).get(i).map(|x| (x.token(), 1, sz as u64)),
+                    4 => { let b = lib!(vv.as_bytes()); if i < vv.len() && (i + 1) * sz <= b.len() { Some((tok_of_bytes::<T>(b[i * sz..].as_ptr()), 1, sz as u64)) } else { None } }
+                    5 => lib!(vv.iter()).nth(i).map(|e| (lib!(e.downcast_ref::<T>()).unwrap().token(), (lib!(e.value_typeid()) == TypeId::of::<T>()) as u64, lib!(e.size()) as u64)),
+                    6 => lib!(vv.downcast_ref::<T>().unwrap().iter()).nth(i).map(|x| (x.token(), 1, sz as u64)),
+                    _ => lib!(vv.get_mut(i)).map(|e| (lib!(e.downcast_ref::<T>()).unwrap().token(), (lib!(e.value_typeid()) == TypeId::of::<T>()) as u64, lib!(e.size()) as u64)),
+                };
+                match r {
+                    None => out = 1,
+                    Some((t, ty, s)) => { ret.push(t); ret.push(ty); ret.push(s); }
+                }
+            }
+            Op::Swap(pr, v1, i, v2, j) => {
+                let (a, b) = two(&mut self.vecs, *v1, *v2);
+                assert!(*i < a.len() && *j < b.len(), "index out of range");
+                match pr {
+                    0 => { let mut ea = lib!(a.at_mut(*i)); let mut eb = lib!(b.at_mut(*j)); lib!(ea.swap(&mut *eb)); }
+                    1 => { let mut h = lib!(a.remove(*i)); { let mut e = lib!(b.at_mut(*j)); lib!(h.swap(&mut *e)); } lib!(drop(h)); }
+                    _ => { let mut h = lib!(a.remove(*i)); { let mut e = lib!(b.at_mut(*j)); lib!(e.swap(&mut h)); } lib!(drop(h)); }
+                }
+            }
+            Op::Parts(v, mode) => {
+                let x = self.vecs[*v].take().expect("vector does not exist");
+                let (x2, r) = M::parts::<Tr, T>(x, *mode);
+                self.vecs[*v] = Some(x2);
+                ret.extend(r);
+            }
+            Op::Placement => {
+                use std::alloc::{GlobalAlloc, Layout, System};
+                type V<Tr, M> = AnyVec<Tr, M>;
+                let va = std::mem::align_of::<V<Tr, M>>();
+                let lay = Layout::from_size_align(std::mem::size_of::<V<Tr, M>>() + 128, 128).unwrap();
+                let buf = crate::elem::untracked(|| unsafe { System.alloc(lay) });
+                let mut worst = 0usize;
+                let mut off = 0;
+                while off < 128 {
+                    unsafe {
+                        let p = buf.add(off) as *mut V<Tr, M>;
+                        std::ptr::write(p, lib!(AnyVec::<Tr, M>::new::<T>()));
+                        let base = lib!((*p).as_bytes()).as_ptr() as usize;
+                        worst = worst.max(base % T::ALIGN);
+                        lib!(std::ptr::drop_in_place(p));
+                    }
+                    off += va;
+                }
+                crate::elem::untracked(|| unsafe { System.dealloc(buf, lay) });
+                ret.push(worst as u64);
+            }
         }
         StepOut { out, ret }
     }
@@ -891,7 +1095,7 @@ pub fn run_case<T: Elem + SatisfyTraits<Tr>, Tr: ?Sized + TrOps, M: BackOps>(cas
         });
         viol.extend(crate::reloc::scan());
         let _ = write!(line, " ev={} raw={}", ev, w.raw_line);
-        let _ = write!(line, " msg={}", msg.replace(' ', "_"));
+        let _ = write!(line, " msg={}", msg.replace(|c: char| c.is_whitespace(), "_"));
         let _ = write!(line, " viol={}", viol.join("+").replace(' ', "_"));
         outp.push_str(&line);
         outp.push('\n');
